@@ -531,8 +531,8 @@ var nativeBin string
 func recKey(b batch, it item) string { return b.ID + "|" + it.Tag }
 
 func progSrc(b batch, it item) string {
-	if b.Err {
-		return it.Code // uncaught-error programs are used verbatim
+	if b.Err || b.Expr != nil {
+		return it.Code // uncaught-error programs and packed expression programs are used verbatim
 	}
 	return assemble([]item{it})
 }
@@ -946,7 +946,14 @@ func runBatch(c *engine.Ctx, r *engine.R, b batch) {
 		if rc == nil {
 			panic("internal: program not prepared: " + recKey(b, it))
 		}
-		checkItem(r, rc)
+		if b.Expr != nil {
+			checkExprProgram(r, rc, b.Expr)
+		} else {
+			checkItem(r, rc)
+		}
+	}
+	if b.Expr != nil {
+		return // too large for a sample
 	}
 	r.Sample(progSrc(b, b.Items[0]))
 }
@@ -960,6 +967,14 @@ func main() {
 	}
 	if t := os.Getenv("C09_VMONLY"); t != "" {
 		vmOnly(t)
+		return
+	}
+	if t := os.Getenv("C09_EXPRDUMP"); t != "" {
+		etDump(t)
+		return
+	}
+	if a := os.Getenv("C09_EXPRONE"); a != "" {
+		etOne(a)
 		return
 	}
 	if f := os.Getenv("C09_ONE"); f != "" {
@@ -984,6 +999,7 @@ func main() {
 		ThoroughDeadline: 55 * time.Minute,
 		Finish: func(a *engine.Agg) {
 			os.RemoveAll(filepath.Join(engine.Root, ".work", "c09", fmt.Sprintf("run-%d", os.Getpid())))
+			etFinish(a)
 		},
 	})
 }
